@@ -8,7 +8,7 @@ from ..report import RuleResult
 from ._c17_cache import ShapeFreeCacheAnalysis as CacheAnalysis, deps, memo_getters
 
 
-def cache_rule(ctx, rule_id, prop_id, base_names, floor, clause, only_fields=None, only_props=None):
+def cache_rule(ctx, rule_id, prop_id, base_names, floor, clause, only_fields=None, only_props=None, feeds=()):
     from ._c17_cache import use_project
 
     res = RuleResult(rule_id, prop_id, clause, floor=floor)
@@ -23,7 +23,7 @@ def cache_rule(ctx, rule_id, prop_id, base_names, floor, clause, only_fields=Non
         for prop, fld, getter in memo_getters(K):
             if only_fields and fld not in only_fields:
                 continue
-            if only_props and prop not in only_props:
+            if only_props and prop not in only_props and prop not in _feeding_props(K, feeds):
                 continue  # selected by the public property that is memoised; its private cache field may be called anything
             d = deps(K, getter, fld)
             if not d:
@@ -67,6 +67,27 @@ def cache_rule(ctx, rule_id, prop_id, base_names, floor, clause, only_fields=Non
     if n_memo == 0:
         raise AnalysisError(f"{rule_id}: no memoised getter found (anchor lost)")
     return res
+
+
+def _feeding_props(K, feeds) -> set:
+    """properties of K that the getter of one of the derived-geometry properties `feeds` reads as `self.<p>` (round 5: a memo put
+    UNDER such a getter — `unique_parts` cached for `cells` — is an input cache of the derived geometry and carries the same
+    obligation as the geometry memo itself, whatever it is called)."""
+    import ast
+
+    out = set()
+    for f in feeds:
+        m = K.lookup(f)
+        if not (m and m[1] == "prop" and m[2].getter is not None):
+            continue
+        g = m[2].getter
+        sn = g.self_name
+        for n in ast.walk(g.node):
+            if isinstance(n, ast.Attribute) and isinstance(n.value, ast.Name) and n.value.id == sn and isinstance(n.ctx, ast.Load):
+                q = K.lookup(n.attr)
+                if q and q[1] == "prop":
+                    out.add(n.attr)
+    return out
 
 
 _STAGES: dict = {}
@@ -146,7 +167,9 @@ def rule_cache(ctx):
         ctx, "C17.CACHE", "C17", ["GridObject", "Curve"], 20,
         "every setter/method that stores an input field of a memoised geometry getter (centroids of Grid2D, BlockModel, "
         "Octree, DrapeModel; Curve cells<->parts) resets the cache on every path on which it stores",
-        only_props={"centroids", "parts", "octree_cells"},
+        # every memoised getter of these classes (round 5: a NEW memo — `unique_parts` cached in a field the `parts` setter does
+        # not reset — is an obligation like the old ones; a getter whose only inputs are the child list is not a geometry memo)
+        only_props={"centroids", "parts", "octree_cells"}, feeds=("cells", "parts", "centroids", "octree_cells"),
     )
 
 
